@@ -47,6 +47,15 @@ type Case struct {
 	// of the marched field), "other-field-before" / "other-field-after" (a separate field carrying only
 	// that attribute, added before / after). The marched surface is that of the position attribute alone.
 	Extra string `json:"extra,omitempty"`
+	// Stage: the canvas is used in two stages — the first part is added with AddField and the canvas
+	// marched (a preview), then the remaining parts are added as a field of their own with the named
+	// writer (AddField | AddFieldParallel | AddFieldParallel2) and the canvas is marched again; the
+	// second march is the one judged. The parts' domains are at least two cells apart, so that the
+	// canvas holds exactly their union.
+	Stage string `json:"stage,omitempty"`
+	// Procs > 0: the number of processors the run is limited to (runtime.GOMAXPROCS) while marching —
+	// entry "canvas-parallel" (MarchParallel) with more storage blocks than processors.
+	Procs int `json:"procs,omitempty"`
 }
 
 // ---- reference distance functions (plain Go, written from the textbook definitions) ----
@@ -127,6 +136,7 @@ func (cs Case) strength() float64 {
 func (cs Case) level() float64 { return cs.Cutoff / cs.strength() }
 
 type builtField struct {
+	parts   []marching.Field // via "marching": one field per part
 	field   marching.Field
 	domains []geometry.AABB // declared domain per part (marching) or one for all (sdf)
 }
@@ -151,6 +161,7 @@ func (cs Case) build() builtField {
 			fs = append(fs, f)
 			b.domains = append(b.domains, f.Domain)
 		}
+		b.parts = fs
 		b.field = marching.CombineFields(fs...)
 	case "sdf":
 		var fns []sample.Vec3ToFloat
